@@ -418,7 +418,7 @@ CHECKS = {
 EXTRA_TEXT = {
  "C16": "The proxy can also remember a frame, cut the connection, and inject the remembered frame into the next connection between the same two nodes (it must not be delivered there).  A seventh message type (Ping) is part of the all-types runs; its first message has every field at its default and encodes to no bytes: authentic, so it must be delivered. The proxy can also keep one frame back and forward it together with the next one in a single write (both must be delivered, in order).",
  "C14": "The translator also checks, on the syntax tree, the assumption behind the opaque document fetch (dataFetch builds an http.Client with an overall Timeout); the thorough tier runs a data source that sends its headers and stalls inside the body and requires the pipeline's goroutines to be gone when the fetch's own 60 s have passed. Key-generation fault added: every node receives the grouping event a second time while the session it started is still running (the handler of the repeated event must return and leave no goroutine behind). Key-generation fault member-listed-twice: the participant list names member 0 twice; the handlers must return with the deadline and leave nothing behind.",
- "C20": "Algebraic relatives of each genuine signature - R || (l - s), (-R) || s, (-R) || (l - s), R || (s + 1), the signature under the negated key - must be rejected by both verifiers, and Equal must tell a point from its negation. One scalar object is assigned repeatedly (large value, then values with leading zero bytes, SetInt64 of -1 and 2, Set, Zero, 64-byte input, One) and the operands are checked to be unchanged. The curve arithmetic behind the signatures is exercised through point objects with histories (the register programs of props/pointmachine.go over the Ed25519 group: every register must encode like its logarithm's multiple of the base point computed afresh). The curve arithmetic has a model of its own (Models/Ed.v, constants regenerated from const.go by translator T5: prime, order, d, 2d, sqrt(-1), the base point): the four representations of ge.go with their formulas operation by operation, point.Add / Sub / Neg, geScalarMult with its signed radix-16 digits and table of 1A..8A, and ToBytes. Proved over any field of characteristic other than two: Add computes the twisted Edwards addition law on the affine coordinates and keeps T = XY/Z (C20_point_add), Sub is Add of the negative (C20_point_sub), Neg (C20_point_neg), the doubling inside Mul on a point of the curve is the law applied to (P, P) (C20_point_double), the sum does not depend on the extended coordinates representing the operands (C20_point_add_representation_independent); the constants satisfy their defining equations (C20_ed_constants: p = 2^255-19, d2 = 2d, sqrtM1^2 = -1, d = -121665/121666, base point on the curve with y = 4/5 and T Z = X Y). Tie: [k]B, [a]B + [b]B, [a]B - [b]B, -[a]B, [a]([b]B) for boundary and random scalars, and the small-logarithm registers of the point programs, against the extracted model byte for byte. Point decoding is modelled as well (Models/EdCodec.v: FromBytes with its candidate root, the two checks v x^2 = u / v x^2 = -u, the multiplication by sqrt(-1), the parity adjustment): over any field with sqrtm1^2 = -1 whatever is accepted is a well-formed point on the curve with the ordinate the bytes carry and x of the announced parity (C20_decoded_on_curve; nothing is assumed about the exponentiation, the code's own check is what the proof uses); in the instance Z/(2^255-19), on canonical input (32 bytes, ordinate below p, x = 0 not announced as odd) decode-then-encode gives back the input (C20_decode_then_encode) and different canonical strings never decode to the same point (C20_decode_injective_on_canonical). Tie: valid encodings, the other sign of x, bit flips, non-canonical ordinates y + p under both sign bits, the points with x = 0 under both sign bits, small and top ordinates, random strings and wrong lengths, against the extracted decoder; the judge takes the square root with math/big. The recoding of the scalar into signed radix-16 digits is proved for every scalar below 2^255: 64 digits, each in -8..8 (what the table and selectCached cover), and sum e_i 16^i is the scalar (C20_scalar_digits). Returned point and scalar encodings are the caller's (overwriting them changes no later encoding).",
+ "C20": "Algebraic relatives of each genuine signature - R || (l - s), (-R) || s, (-R) || (l - s), R || (s + 1), the signature under the negated key - must be rejected by both verifiers, and Equal must tell a point from its negation. One scalar object is assigned repeatedly (large value, then values with leading zero bytes, SetInt64 of -1 and 2, Set, Zero, 64-byte input, One) and the operands are checked to be unchanged. The curve arithmetic behind the signatures is exercised through point objects with histories (the register programs of props/pointmachine.go over the Ed25519 group: every register must encode like its logarithm's multiple of the base point computed afresh). The curve arithmetic has a model of its own (Models/Ed.v, constants regenerated from const.go by translator T5: prime, order, d, 2d, sqrt(-1), the base point): the four representations of ge.go with their formulas operation by operation, point.Add / Sub / Neg, geScalarMult with its signed radix-16 digits and table of 1A..8A, and ToBytes. Proved over any field of characteristic other than two: Add computes the twisted Edwards addition law on the affine coordinates and keeps T = XY/Z (C20_point_add), Sub is Add of the negative (C20_point_sub), Neg (C20_point_neg), the doubling inside Mul on a point of the curve is the law applied to (P, P) (C20_point_double), the sum does not depend on the extended coordinates representing the operands (C20_point_add_representation_independent); the constants satisfy their defining equations (C20_ed_constants: p = 2^255-19, d2 = 2d, sqrtM1^2 = -1, d = -121665/121666, base point on the curve with y = 4/5 and T Z = X Y). Tie: [k]B, [a]B + [b]B, [a]B - [b]B, -[a]B, [a]([b]B) for boundary and random scalars, and the small-logarithm registers of the point programs, against the extracted model byte for byte. Point decoding is modelled as well (Models/EdCodec.v: FromBytes with its candidate root, the two checks v x^2 = u / v x^2 = -u, the multiplication by sqrt(-1), the parity adjustment): over any field with sqrtm1^2 = -1 whatever is accepted is a well-formed point on the curve with the ordinate the bytes carry and x of the announced parity (C20_decoded_on_curve; nothing is assumed about the exponentiation, the code's own check is what the proof uses); in the instance Z/(2^255-19), on canonical input (32 bytes, ordinate below p, x = 0 not announced as odd) decode-then-encode gives back the input (C20_decode_then_encode) and different canonical strings never decode to the same point (C20_decode_injective_on_canonical). Tie: valid encodings, the other sign of x, bit flips, non-canonical ordinates y + p under both sign bits, the points with x = 0 under both sign bits, small and top ordinates, random strings and wrong lengths, against the extracted decoder; the judge takes the square root with math/big. The recoding of the scalar into signed radix-16 digits is proved for every scalar below 2^255: 64 digits, each in -8..8 (what the table and selectCached cover), and sum e_i 16^i is the scalar (C20_scalar_digits). Returned point and scalar encodings are the caller's (overwriting them changes no later encoding). Consequences of the addition law on the elements: the identity is neutral (C20_point_add_neutral), addition is commutative (C20_point_add_commutative), and a point of the curve plus its negative is the identity (C20_point_add_inverse); associativity is not proved.",
  "C19": "Histories also contain reconnects (DisconnectAll then Connect, in half of the cases after an attempt that fails because no websocket endpoint answers; C19_reconnect_revives_all), directed ones being followed by a commit-reveal call and a burst. Histories run in child processes (a panic in one of the adaptor's goroutines is attributed to its history); half of the multi-endpoint rigs have a single websocket endpoint. Between the calls of a history the operator changes the gas price and the gas limit (SetGasPrice / SetGasLimit); every transaction an endpoint receives afterwards - on rigs with fewer websocket than RPC endpoints too - must carry the settings in force. The settings are a layer over the adaptor model (Models/AdaptorGas.v: per RPC endpoint a proxy and a commit-reveal session with transact options, the setters' loop over both lists, Connect rebuilding the sessions from the adaptor's fields): over any history every transaction any endpoint receives - first choice or fail-over, proxy or commit-reveal call - carries the configuration or the latest change (C19_gas_settings_in_force, by the invariant that every session carries the adaptor's current setting, C19_gas_initial), and forgetting the settings gives exactly the adaptor history of the other theorems (C19_gas_layer_transparent); the histories are compared with this layer's outputs (settings per received transaction).",
  "C13": "The real dispatch stage (VerifDispatchSign on the submitter) is cancelled while it waits for the node's own share, or after it registered, and 16 late shares arrive: the collector must neither panic nor stop serving another request. The end-to-end systems serve a second, undisturbed request after the first one (same submitter): it must be reported.",
  "C12": "Library-level probes: deals that every verifier approves but that have fewer commitments than the threshold, or one coefficient more / less, run to DistKeyShare on all members - no call may panic. Scenario added: the attacker echoes each member's own broadcast public key back under the attacker's index. Scenario added: both peers' shares reach the submitter before it registers the request (more shares waiting than its recovery takes); the node must serve the following request as well. Every signature-share scenario is followed by a second request.",
